@@ -6,7 +6,8 @@
 //                  / server-side events in the order they happened: Prepare, Complete{ec} (only with the proposed
 //                    hooks), Setup, Handler, OnError
 //                  / Reply{kind,status,pstatus,frame} / Probe{abstract request, o}
-//                  and Died{why} (process exits 42; the check restarts the driver at idx+1).
+//                  and Died{why} (process exits 42; the check restarts the driver at idx+1); Early{sent,of}: the
+//                  application was called / a reply was there although the last segment had not been sent yet.
 // label: "bad"  the bytes are definitely not a well-formed request: the connection must end in an error reply or
 //               be closed;  "ok" a well-formed conversation (must be served);  "any" no claim about the reply.
 #ifndef VERIF_INPUT_C02_H
@@ -19,12 +20,19 @@ namespace inp {
 struct c02case {
 	std::string cls,label,bytes; char end;   // end: 'h' half-close after the last byte, 'r' reset, 'w' keep open until replied
 	int nreq;
-	c02case() : label("bad"),end('h'),nreq(1) {}
+	bool fixed_cuts,guard;       // fixed_cuts: use `cuts` instead of random ones; guard: the bytes before the last cut are an
+	std::vector<int> cuts;       //   incomplete request, so nothing may be served before the last segment is sent
+	c02case() : label("bad"),end('h'),nreq(1),fixed_cuts(false),guard(false) {}
 };
 
 static void add(std::vector<c02case> &v,char const *cls,char const *label,std::string const &bytes,char end='h',int nreq=1)
 {
 	c02case c; c.cls=cls; c.label=label; c.bytes=bytes; c.end=end; c.nreq=nreq; v.push_back(c);
+}
+
+static void addc(std::vector<c02case> &v,char const *cls,char const *label,std::string const &bytes,std::vector<int> const &cuts,bool guard,char end='h',int nreq=1)
+{
+	c02case c; c.cls=cls; c.label=label; c.bytes=bytes; c.end=end; c.nreq=nreq; c.fixed_cuts=true; c.cuts=cuts; c.guard=guard; v.push_back(c);
 }
 
 static std::string rnd_bytes(vt::rng &r,size_t n,int proto)
@@ -148,6 +156,8 @@ static void scgi_cases(std::vector<c02case> &v,bool quick,uint64_t seed)
 	for(int i=0;i<nr;i++) add(v,"scgi-mutated","any",mutate(*bases[i%3],r),r.chance(1,5)?'r':'h');
 }
 
+static void fcgi_padded_cases(std::vector<c02case> &v,bool quick);
+
 static void fcgi_cases(std::vector<c02case> &v,bool quick,uint64_t seed)
 {
 	fcgi_opt o; o.rid=7;
@@ -216,6 +226,7 @@ static void fcgi_cases(std::vector<c02case> &v,bool quick,uint64_t seed)
 	{ fcgi_opt k=o; k.flags=1; add(v,"fcgi-keep-conn-pair","ok",fcgi_encode(G,k)+fcgi_encode(P,o),'w',2); }
 	add(v,"fcgi-valid","ok",g,'w'); add(v,"fcgi-valid","ok",p,'w'); add(v,"fcgi-valid","ok",f,'w');
 	add(v,"fcgi-valid-halfclose","any",p);
+	fcgi_padded_cases(v,quick);
 	#undef REC
 	vt::rng r(seed*77+3);
 	int nr=quick?150:3000;
@@ -230,6 +241,83 @@ static void fcgi_cases(std::vector<c02case> &v,bool quick,uint64_t seed)
 			s+=fcgi_rec(t,id,c,r(8));
 		}
 		add(v,"fcgi-random-records","any",s);
+	}
+}
+
+// a FastCGI stream that remembers where the content of every record ends (= where its padding starts)
+struct recstream {
+	struct rec { size_t hdr,content_end; int pad,type; std::string content; };
+	std::string w; std::vector<rec> rs;
+	void add(int type,int rid,std::string const &c,int pad,int version=1)
+	{
+		rec x; x.hdr=w.size(); x.content_end=x.hdr+8+c.size(); x.pad=pad; x.type=type; x.content=c; rs.push_back(x);
+		w+=fcgi_rec(type,rid,c,pad,version);
+	}
+};
+static std::vector<int> shifted(std::vector<int> c,int by,int first=-1)
+{
+	std::vector<int> r; if(first>=0) r.push_back(first);
+	for(size_t i=0;i<c.size();i++) r.push_back(c[i]+by);
+	return r;
+}
+// cuts that fall exactly between content and padding of a record, and inside the padding
+static std::vector<std::vector<int> > boundary_cuts(recstream::rec const &x)
+{
+	std::vector<std::vector<int> > r; std::vector<int> c;
+	if(x.pad<1) return r;
+	c.push_back(x.content_end); r.push_back(c);
+	if(x.pad>1) { c.clear(); c.push_back(x.content_end+1); r.push_back(c); }
+	if(x.pad>2) { c.clear(); c.push_back(x.content_end); c.push_back(x.content_end+x.pad-1); r.push_back(c); }
+	return r;
+}
+// Padded PARAMS / STDIN / empty records cut at the content|padding boundary: on a fresh connection, and behind an
+// ignored record whose payload leaves, exactly where the read-ahead cache would be over-read, records that would
+// complete the request (a front-end that looks at stale cache bytes serves a request the peer has not finished).
+static void fcgi_padded_cases(std::vector<c02case> &v,bool quick)
+{
+	absreq G=base_get(), P=base_post();
+	int padsq[]={1,3,7}, padsf[]={1,2,3,4,5,6,7};
+	int const *pads=quick?padsq:padsf; int npads=quick?3:7;
+	for(int b=0;b<2;b++) {
+		absreq const &R0=b?P:G;
+		std::string pp=fcgi_pairs(cgi_vars(R0),0);
+		for(int pi=0;pi<npads;pi++) {
+			int k=pads[pi];
+			recstream q; q.add(1,7,fcgi_begin(7,1,0).substr(8),0); q.add(4,7,pp,k); q.add(4,7,"",k);
+			if(!R0.body.empty()) q.add(5,7,R0.body,k);
+			q.add(5,7,"",k);
+			for(size_t ri=1;ri<q.rs.size();ri++) {
+				std::vector<std::vector<int> > bc=boundary_cuts(q.rs[ri]);
+				// what follows record ri, unpadded, with a body of the same length but other content
+				std::string follow;
+				for(size_t rj=ri+1;rj<q.rs.size();rj++) follow+=fcgi_rec(q.rs[rj].type,7,q.rs[rj].type==5&&!q.rs[rj].content.empty()?std::string("STALE=1&x=y").substr(0,q.rs[rj].content.size()):q.rs[rj].content,0);
+				for(size_t ci=0;ci<bc.size();ci++) {
+					addc(v,"fcgi-padded-record-cut-at-padding","ok",q.w,bc[ci],true,'w');
+					// behind an ignored record: the cache holds its payload beyond the bytes of the request
+					size_t so=q.rs[ri].content_end+k;                // where an over-read of the cache would continue
+					if(so<8) continue;
+					std::string C(so-8,'x'); C+=follow; C.append(64,'x');
+					std::string X=fcgi_rec(7,0,C,0);
+					addc(v,"fcgi-padded-record-cut-at-padding-stale-cache","ok",X+q.w,shifted(bc[ci],X.size(),X.size()),true,'w');
+				}
+			}
+			// truncation inside / in front of the padding of the last record, and malformed conversations with padded records
+			recstream::rec const &last=q.rs.back();
+			addc(v,"fcgi-truncated-at-padding","bad",q.w.substr(0,last.content_end),std::vector<int>(),false);
+			if(k>1) addc(v,"fcgi-truncated-at-padding","bad",q.w.substr(0,last.content_end+k-1),std::vector<int>(1,(int)last.content_end),false);
+			if(b==0) {
+				{ recstream m; m.add(1,7,fcgi_begin(7,1,0).substr(8),k); m.add(5,7,"abc",k); m.add(4,7,pp,k); m.add(4,7,"",k); m.add(5,7,"",k);
+				  for(size_t ri=0;ri<m.rs.size();ri++) { std::vector<std::vector<int> > bc=boundary_cuts(m.rs[ri]); if(!bc.empty()) addc(v,"fcgi-stdin-before-params-padded","bad",m.w,bc[0],false); } }
+				{ recstream m; m.add(1,7,fcgi_begin(7,1,0).substr(8),0); m.add(4,8,pp,k); m.add(4,7,"",k); m.add(5,7,"",k);
+				  for(size_t ri=1;ri<m.rs.size();ri++) { std::vector<std::vector<int> > bc=boundary_cuts(m.rs[ri]); if(!bc.empty()) addc(v,"fcgi-wrong-record-in-params-padded","bad",m.w,bc[0],false); } }
+				{ std::string a=pp; a[0]=(char)0x7f; recstream m; m.add(1,7,fcgi_begin(7,1,0).substr(8),0); m.add(4,7,a,k); m.add(4,7,"",k); m.add(5,7,"",k);
+				  std::vector<std::vector<int> > bc=boundary_cuts(m.rs[1]); addc(v,"fcgi-params-length-lies-padded","bad",m.w,bc[0],false); }
+				{ recstream m; m.add(1,7,fcgi_begin(7,2,0).substr(8),k); m.add(4,7,pp,k); m.add(4,7,"",k); m.add(5,7,"",k);
+				  std::vector<std::vector<int> > bc=boundary_cuts(m.rs[0]); addc(v,"fcgi-unknown-role-padded","bad",m.w,bc[0],false); }
+				{ recstream m; m.add(1,7,fcgi_begin(7,1,0).substr(8),0); m.add(4,7,pp,k); m.add(4,7,"",k); m.add(5,7,"abc",k); m.add(5,7,"",k);
+				  for(size_t ri=1;ri<m.rs.size();ri++) { std::vector<std::vector<int> > bc=boundary_cuts(m.rs[ri]); if(!bc.empty()) addc(v,"fcgi-stdin-without-content-length-padded","bad",m.w,bc[0],false); } }
+			}
+		}
 	}
 }
 
@@ -269,6 +357,7 @@ static int c02_main(server &S,char const *pname,long from,long count,bool quick,
 		std::set<int> cutset; int nc=r(4);
 		for(int i=0;i<nc && cs.bytes.size()>1;i++) cutset.insert(1+r(cs.bytes.size()-1));
 		std::vector<int> cuts(cutset.begin(),cutset.end());
+		if(cs.fixed_cuts) cuts=cs.cuts;
 		int nreq=cs.nreq;
 		if(cs.label=="any") {          // upper bound on the requests these bytes can legitimately contain
 			if(proto==HTTP) { std::string lo=lower(cs.bytes); size_t p=0; while((p=lo.find("keep-alive",p))!=std::string::npos) { nreq++; p++; } }
@@ -285,7 +374,22 @@ static int c02_main(server &S,char const *pname,long from,long count,bool quick,
 		int cfd=-1,sdup=-1;
 		if(!S.connect(proto,cfd,sdup)) return 3;
 		bool broken=false;
-		send_cut(cfd,sdup,cs.bytes,cuts,15,broken);
+		if(cs.guard && !cuts.empty()) {
+			// everything but the last segment first: the request is not complete, so nothing may be served yet
+			size_t lastcut=cuts.back();
+			send_cut(cfd,sdup,cs.bytes.substr(0,lastcut),std::vector<int>(cuts.begin(),cuts.end()-1),15,broken);
+			if(!broken) wait_consumed(sdup,50);
+			S.barrier(4);
+			bool early=false;
+			{ std::lock_guard<std::mutex> g(ev_mx); for(size_t i=0;i<ev_log.size();i++) if(ev_log[i].kind=='H') early=true; }
+			char pk[8192]; ssize_t pn=recv(cfd,pk,sizeof(pk),MSG_PEEK|MSG_DONTWAIT);
+			if(pn>0) { std::string d(pk,pn); size_t at=0; reply t;
+				bool got = proto==HTTP?parse_http(d,at,false,t):proto==FCGI?(parse_fcgi(d,at,t)&&t.complete):false;
+				if(got && t.status<400) early=true; }
+			if(early) emit(vt::J().s("e","Early").i("sent",lastcut).i("of",cs.bytes.size()).str());
+			if(!broken) send_cut(cfd,sdup,cs.bytes.substr(lastcut),std::vector<int>(),15,broken);
+		}
+		else send_cut(cfd,sdup,cs.bytes,cuts,15,broken);
 		if(!broken) wait_consumed(sdup,20);
 		close(sdup);
 		std::string kind,head; reply rp; int nrep=0; bool endreq=false; int pstatus=0,gotvalues=0;
